@@ -149,17 +149,20 @@ def zero_div(F, R):
             continue
         n += 1
         sites = []
+        div_ops = {}
         for bb, t in b.calls():
             cp = callee_path(t) or ''
             if cp.endswith('::div_assign') or cp.endswith('::div'):
                 d = describe(b, t['args'][1], depth=6, at=bb)
                 if 'Decibels::as_amplitude(' in d:
                     sites.append((bb, d))
+                    div_ops[bb] = t['args'][1]
         for bb, si, s in b.stmts():
             if s['k'] == 'assign' and s['rv']['k'] == 'bin' and s['rv']['op'] == 'Div':
                 d = describe(b, s['rv']['b'], depth=6, at=bb)
                 if 'Decibels::as_amplitude(' in d:
                     sites.append((bb, d))
+                    div_ops[bb] = s['rv']['b']
         if not sites:
             R.ok('B.C13.zero-div', im['self_ty'], detail='no division by an amplitude derived from decibels')
             continue
@@ -168,8 +171,29 @@ def zero_div(F, R):
             for g in range(b.n):
                 t = b.blocks[g]['term']
                 if t['k'] == 'switch' and b.dominates(g, bb) and g != bb:
-                    gd = describe(b, t['op'], depth=6, at=g)
-                    if 'as_amplitude' in gd and ('0.0' in gd) and gd.split('(')[0] in ('Gt', 'Ne', 'Eq', 'Lt', 'Le', 'Ge'):
+                    # the test must be about the very value that divides (same definition), against literal zero,
+                    # and the division must sit on its non-zero side
+                    from ..paths import origin_def
+                    gdf, _ = origin_def(b, t['op'])
+                    if not gdf or gdf[0] != 'rv' or gdf[2]['k'] != 'bin' or gdf[2]['op'] not in ('Gt', 'Ne', 'Eq', 'Lt', 'Le', 'Ge'):
+                        continue
+                    gn = gdf[2]['op']
+                    da, db = describe(b, gdf[2]['a']), describe(b, gdf[2]['b'])
+
+                    def same_value(op):
+                        x, lx = origin_def(b, op)
+                        y, ly = origin_def(b, div_ops[bb])
+                        return x is not None and y is not None and x[0] == y[0] and x[0] in ('call', 'rv') and x[1] == y[1] and lx == ly
+                    if db in ('0.0', '-0.0') and same_value(gdf[2]['a']):
+                        nonzero_true = gn in ('Gt', 'Ne', 'Lt')
+                    elif da in ('0.0', '-0.0') and same_value(gdf[2]['b']):
+                        nonzero_true = gn in ('Lt', 'Ne', 'Gt')
+                    else:
+                        continue
+                    tgt0 = dict(t['targets']).get('0')
+                    side = t['otherwise'] if nonzero_true else tgt0
+                    other = tgt0 if nonzero_true else t['otherwise']
+                    if side is not None and b.dominates(side, bb) and (other is None or bb not in b.reachable([other], stop=[g])):
                         guarded = True
             R.check(guarded, 'B.C13.zero-div', im['self_ty'],
                     '%s::process divides by %s; Decibels::as_amplitude returns exactly 0.0 at or below -60 dB (Decibels::SILENCE), '
